@@ -337,15 +337,19 @@ fn explicit_balance(t: &mut Tape, ctx: &mut Ctx) -> R {
         if t.chance(50) {
             let amount = ct::gen_amount(t);
             let reissue = t.bool();
+            // asset only / asset + tokens / tokens only (null amount)
+            let token_only = !reissue && t.chance(70);
             txin.asset_issuance = AssetIssuance {
                 asset_blinding_nonce: if reissue { gen::gen_tweak(t) } else { elements::secp256k1_zkp::ZERO_TWEAK },
                 asset_entropy: t.arr32(),
-                amount: Value::Explicit(amount),
+                amount: if token_only { Value::Null } else { Value::Explicit(amount) },
                 inflation_keys: Value::Null,
             };
-            let (aid, tid) = txin.issuance_ids();
-            *totals.entry(aid).or_insert(0) += u128::from(amount);
-            if !reissue && t.bool() {
+            let (aid, tid) = ct::ref_issuance_ids(&txin);
+            if !token_only {
+                *totals.entry(aid).or_insert(0) += u128::from(amount);
+            }
+            if token_only || (!reissue && t.bool()) {
                 let k = ct::gen_amount(t);
                 txin.asset_issuance.inflation_keys = Value::Explicit(k);
                 *totals.entry(tid).or_insert(0) += u128::from(k);
